@@ -389,6 +389,23 @@ def check_static(case, rec):
         except Exception as e:                              # noqa: BLE001
             passthrough(e)
             rec.add("C16.prop", "Dataset.unified_dataset raises", dict(ctx, exception=raise_text(e)))
+        # copies of the dataset and of its rankings (copy, deepcopy, pickle round trip) are datasets / rankings like any
+        # other: same content, views consistent with it
+        import copy as _copy
+        import pickle as _pickle
+        for how, fn_ in (("copy.copy", _copy.copy), ("copy.deepcopy", _copy.deepcopy),
+                         ("pickle round trip", lambda o: _pickle.loads(_pickle.dumps(o)))):
+            try:
+                dc = fn_(ds)
+                rec.dataset(dc, "Dataset obtained by %s" % how, ctx)
+                rec.content(dc.rankings, exp, "Dataset obtained by %s" % how, ctx)
+                for i, r in enumerate(ds.rankings):
+                    rc_ = fn_(r)
+                    rec.ranking(rc_, "C16.prop", "Ranking obtained by %s" % how, dict(ctx, index=i))
+                    rec.content([rc_], [exp[i]], "Ranking obtained by %s" % how, dict(ctx, index=i))
+            except Exception as e:                          # noqa: BLE001
+                passthrough(e)
+                rec.add("C16.prop", "Dataset / Ranking obtained by %s raises" % how, dict(ctx, exception=raise_text(e)))
         # the dataset itself must still be consistent (unification works on copies)
         rec.dataset(ds, "Dataset(...) after unified_rankings", ctx)
         rec.content(ds.rankings, exp, "Dataset(...) after unified_rankings", ctx)
